@@ -3,7 +3,7 @@
     writes what it observed: an error, (nil, nil), or the returned value read back through
     Value() (reflection, arbitrary precision) together with its String(). *)
 From Coq Require Import ZArith List Bool Lia Strings.Byte QArith.
-From YV Require Import Base.Verdict Base.Wrap Val.Model Conv.Model Conv.Spec.
+From YV Require Import Base.Verdict Base.Wrap Val.Model Conv.Model Conv.Spec Conv.Front.
 Import ListNotations.
 Open Scope Z_scope.
 
@@ -11,6 +11,7 @@ Inductive obs :=
 | OErr
 | ONil                                            (* (nil, nil) *)
 | OV (r : rval) (str : option (list byte))        (* Value() read back; String() of scalar int/bool/string *)
+| OEnum (id : Z) (label : list byte)              (* a val.Enum (NewValue on an enumeration) *)
 | OMay (o : obs).                                 (* the harness declares: oracle territory is allowed here *)
 
 (** targets of a row, in this order *)
@@ -21,7 +22,10 @@ Definition row_targets : list target := map TScalar row_fmts ++ map TList row_fm
 Inductive case :=
 | CRow (s : src) (os : list obs)                  (* one source against every row target *)
 | COne (t : target) (s : src) (o : obs)
-| COneOf (ts : list target) (s : src) (o : obs) (picked : Z).   (* ConvOneOf; index of the format returned *)
+| COneOf (ts : list target) (s : src) (o : obs) (picked : Z)    (* ConvOneOf; index of the format returned *)
+| CNew (ty : ntype) (s : src) (o : obs)                         (* node.NewValue(type, v) *)
+| CNewStrs (tys : list ntype) (strs : list (list byte)) (os : option (list obs)) (may : bool).
+    (* node.NewValuesByString(leaves, strs...): None = error, Some = the values *)
 
 Definition fl_eqb (a b : fl) : bool :=
   match a, b with
@@ -82,6 +86,7 @@ Definition spec_cell (t : target) (s : src) (o : obs) : bool :=
   | OErr => true
   | ONil => match s with SScalar XNil => true | _ => false end
   | OV r str => exactb s r && rval_typedb t r && str_ok r str
+  | OEnum _ _ => false
   | OMay _ => true
   end.
 
@@ -121,6 +126,7 @@ Definition spec_oneof (ts : list target) (s : src) (o : obs) (picked : Z) : bool
                | Some t' => (0 <=? picked) && exactb s r' && rval_typedb t' r'
                | None => false
                end
+  | OEnum _ _ => false
   | OMay _ => true
   end.
 Definition classify_oneof (ts : list target) (s : src) (o : obs) (picked : Z) : verdict :=
@@ -138,9 +144,60 @@ Definition classify_oneof (ts : list target) (s : src) (o : obs) (picked : Z) : 
       classify_gen corr spec known
   end.
 
+(** node.NewValue *)
+Definition corr_new (ty : ntype) (s : src) (o : obs) : bool :=
+  match new_value ty s with
+  | Unmodelled => is_may o
+  | Err => match strip_may o with OErr => true | _ => false end
+  | Ok (NR RNil) => match strip_may o with ONil => true | _ => false end
+  | Ok (NR r) => match strip_may o with
+                 | OV r' str => rval_eqb r r' && opt_bytes_eqb (model_str r) str
+                 | _ => false
+                 end
+  | Ok (NREnum e) => match strip_may o with OEnum id l => enum_eqb e (id, l) | _ => false end
+  end.
+Definition spec_new (ty : ntype) (s : src) (o : obs) : bool :=
+  match strip_may o with
+  | OErr => true
+  | ONil => is_nil s
+  | OV r' str => nexactb ty s (NR r') && str_ok r' str
+  | OEnum id l => nexactb ty s (NREnum (id, l))
+  | OMay _ => true
+  end.
+Definition new_unmodelled (ty : ntype) (s : src) : bool :=
+  match new_value ty s with Unmodelled => true | _ => false end.
+Definition classify_new (ty : ntype) (s : src) (o : obs) : verdict :=
+  if new_unmodelled ty s && is_may o then Agree
+  else classify_gen (corr_new ty s o) (spec_new ty s o) (if nkf ty s then Some 1%nat else None).
+
+(** node.NewValuesByString: values for the first min(len leaves, len strs) leaves, first error wins *)
+Fixpoint classify_strs (tys : list ntype) (strs : list (list byte)) (os : option (list obs)) (may : bool)
+  : verdict :=
+  match tys, strs with
+  | ty :: tys', str :: strs' =>
+      let s := SScalar (XStr false str) in
+      match new_value ty s with
+      | Unmodelled => if may then Agree else Diverge
+      | Err => match os with None => Agree | Some (o :: _) => classify_new ty s o | Some [] => Diverge end
+      | Ok _ =>
+          match os with
+          | None => classify_strs tys' strs' None may          (* a later one must fail *)
+          | Some (o :: os') => worse (classify_new ty s o) (classify_strs tys' strs' (Some os') may)
+          | Some [] => Diverge
+          end
+      end
+  | _, _ => match os with
+            | None => Diverge                                  (* the model converted everything *)
+            | Some [] => Agree
+            | Some _ => Diverge
+            end
+  end.
+
 Definition classify (c : case) : verdict :=
   match c with
   | CRow s os => classify_row row_targets s os
   | COne t s o => classify_cell t s o
   | COneOf ts s o p => classify_oneof ts s o p
+  | CNew ty s o => classify_new ty s o
+  | CNewStrs tys strs os may => classify_strs tys strs os may
   end.
